@@ -184,6 +184,43 @@ def r3_kill(ctx):
         ctx.ok("poll|timeout-test", f.where(ge[0].block), "start.elapsed() >= timeout")
     else:
         ctx.bad("poll|timeout-test", f.where(), "the poll loop no longer compares elapsed time with the timeout using >=")
+    # a child is declared late only after it was just seen running: the exit test of the same iteration comes before the
+    # deadline test, with no sleep in between - otherwise a child that finished in time while the loop slept is reported as a
+    # timeout and its complete output is thrown away
+    tw = [c for c in f.calls() if (c.callee or "").endswith("Child::try_wait")]
+    sl = [c for c in f.calls() if (c.callee or "").endswith("thread::sleep")]
+    tmo = []
+    for b in sorted(f.live):
+        for s_ in f.blocks[b]["s"]:
+            rv = s_["rv"]
+            if rv["k"] == "agg" and rv.get("variant") == "Timeout":
+                tmo.append(b)
+    if tw and tmo:
+        fresh = all(f.dominates(tw[0].block, b) for b in tmo) and all(f.must_pass([c.block], {tw[0].block}, targets=tmo)[0] for c in sl)
+        entry_ok = all(f.must_pass([0], {tw[0].block}, targets=tmo)[0] for _ in [0]) if 0 != tw[0].block else True
+        if fresh and entry_ok:
+            ctx.ok("poll|exit-seen-before-deadline", f.where(tw[0].block), "try_wait() of the same iteration precedes the deadline test")
+        else:
+            ctx.bad("poll|exit-seen-before-deadline", f.where(tmo[0]), "wait_for_child can report Timeout without having looked at the child since the last sleep: a child that exited inside its timeout is reported as timed out and its output is discarded")
+    else:
+        ctx.bad("poll|exit-seen-before-deadline|anchors", f.where(), "try_wait / Timeout not found in wait_for_child")
+    # after a kill, the run still waits for the capture readers, and a reader ends only when *every* process holding the
+    # pipe's write end has gone.  Killing the direct child alone leaves its descendants alive with the pipe open: the run
+    # does not end at the timeout, and a process the script started is left running.
+    h0 = ctx.need(PC + "run_host_process")
+    joins_after_error = False
+    for c in h0.calls_to(PC + "join_capture"):
+        for S, al in h0.constraints(c.block):
+            si = h0.switch_info(S)
+            if si["kind"] == "discr" and "Result" in si["ty"] and label_names(h0, S, al, si) == {"Err"}:
+                joins_after_error = True
+    whole_tree = any((c.callee or "").split("::")[-1] in ("process_group", "setsid", "killpg", "setpgid", "AssignProcessToJobObject", "TerminateJobObject")
+                     for fn in ctx.lib.fns.values() if fn.file.startswith("src/sys/") for c in fn.calls())
+    kills_child_only = any((c.callee or "").endswith("Child::kill") for c in t.calls())
+    if joins_after_error and kills_child_only and not whole_tree:
+        ctx.bad("timeout|descendants-hold-the-pipe", t.where(), "terminate_child kills the direct child only (Child::kill; no process group / job object anywhere under src/sys), and run_host_process then joins the capture readers, which end only when every holder of the pipe has exited: with a grandchild that keeps the stream open (`sh -c \"sleep 7; echo late\"`) a 300 ms timeout is reported after 7 s - never, for a daemon - and the grandchild is left running")
+    else:
+        ctx.ok("timeout|whole-tree", t.where(), "the kill reaches the process tree, or the error path does not wait for the readers")
     h = ctx.need(PC + "run_host_process")
     for c in h.calls_to(PC + "wait_for_child"):
         to = sh(ne(h.deep(c.args[2])))
@@ -205,6 +242,17 @@ def r4_utf8_and_status(ctx):
         ctx.ok("utf8|error-kind", clo.where(), "maps to ProcessError::InvalidUtf8(stream)")
     else:
         ctx.bad("utf8|error-kind", f.where(), "invalid UTF-8 is no longer mapped to ProcessError::InvalidUtf8")
+    # `the corresponding error`: the stream an overflow / invalid-UTF-8 error names is the stream it happened on
+    from ..tables import mir_enum_table
+    nm = ctx.lib.fns.get("process::ProcessStream::as_str")
+    if nm is not None:
+        ctx.touch(nm)
+        tab = mir_enum_table(nm, 1) or {}
+        wrong = {v: r for v, r in tab.items() if [str(x).strip('"') for x in r] != [v.lower()]}
+        if tab and not wrong:
+            ctx.ok("stream-name", nm.where(), "%s" % {v: r[0] for v, r in tab.items()})
+        else:
+            ctx.bad("stream-name|%s" % ",".join("%s=%s" % (v, "/".join(str(x).strip('"') for x in r)) for v, r in sorted(wrong.items())), nm.where(), "ProcessStream::as_str names %s: an error on one captured stream is reported as an error on the other" % wrong)
     h = ctx.need(PC + "run_host_process")
     ctx.touch(h)
     # exit status is data: status.code() feeds the ProcessResult aggregate and no switch leads to Err
@@ -251,8 +299,10 @@ def r6_captured_text_outlives_the_frame(ctx):
     """The captured stdout / stderr belong to the result value for as long as the script keeps it.  The result's handle is
     persistent; the text must be allocated on the same arena, or it is recycled at the next frame reset and the script reads
     something the child never wrote (shared with C02-R5)."""
-    from .c02 import host_colocation
-    host_colocation(ctx)
+    from .c02 import r5_promotion_complete
+    # host_colocation is part of it; the rest covers the text once it is a plain string value: `keep(r.stdout())` hands a
+    # frame-allocated temporary to a function that stores it - promotion must recognise frame memory as well as pool slots
+    r5_promotion_complete(ctx)
 
 
 RULES = [("C16-R1", r1_recheck_after_join), ("C16-R2", r2_bounded_reader), ("C16-R3", r3_kill), ("C16-R4", r4_utf8_and_status), ("C16-R5", r6_captured_text_outlives_the_frame)]
@@ -273,3 +323,6 @@ EXPLANATION += (
 ASSUMPTIONS = ["unix back end (process_common) only", "SeqCst/Acquire atomics behave as documented"]
 TRUSTED = ["rustc nightly MIR", "nsx exporter", "nsverif dominance and expression reconstruction"]
 NONTRIVIAL = "one obligation per ordering/wiring clause and per Err/Ok return site; distinct = distinct clause/site"
+EXPLANATION += (
+    ' Round-5: R3 also requires the exit test of an iteration to precede the deadline test with no sleep between them, and reports (known finding D46) that a kill reaches the direct child only while the error path waits for readers that end when the whole process tree has let go of the pipe; R4 checks the stream names of ProcessStream::as_str; R5 shares all of C02-R5.'
+)
